@@ -2,11 +2,26 @@
 F = 'src/Dimensions.cpp'
 OPT = r'boost::optional<ndsize_t>\s+'
 
+PRINT_OPT = 'std::printf("OBS has %d\\nOBS val %llu\\n", r ? 1 : 0, r ? (unsigned long long)*r : 0ULL);'
+RET_OPT = 'return (opt_ndsize){{{has}, {val}ULL}};'
 UNITS = {
-    'getDataFrameIndex': dict(file=F, locator=OPT + r'getDataFrameIndex\s*\('),
+    'getDataFrameIndex': dict(file=F, locator=OPT + r'getDataFrameIndex\s*\(', replay=dict(
+        tu='src/Dimensions.cpp', kinds={'position': 'double', 'tick_count': 'u64', 'match': 'int'},
+        driver='boost::optional<nix::ndsize_t> r = getDataFrameIndex({position}, {tick_count}, static_cast<nix::PositionMatch>({match}));\n' + PRINT_OPT,
+        oracle_body=RET_OPT, oracle_harness='getDataFrameIndex({position}, {tick_count}, (PositionMatch){match});')),
     'getSetIndex': dict(file=F, locator=OPT + r'getSetIndex\s*\('),
-    'getIndex': dict(file=F, locator=OPT + r'getIndex\s*\('),
-    'getSampledIndex': dict(file=F, locator=OPT + r'getSampledIndex\s*\('),
+    'getIndex': dict(file=F, locator=OPT + r'getIndex\s*\(', replay=dict(
+        tu='src/Dimensions.cpp', witness_harness='wit_getIndex.c',
+        globals=['g_w0', 'g_w1', 'g_w2', 'g_w3', 'g_wn', 'g_wp', 'g_wm'],
+        kinds={'g_w0': 'double', 'g_w1': 'double', 'g_w2': 'double', 'g_w3': 'double', 'g_wn': 'size', 'g_wp': 'double', 'g_wm': 'int'},
+        driver='double w[4] = {{{g_w0}, {g_w1}, {g_w2}, {g_w3}}}; std::vector<double> ticks(w, w + {g_wn});\n'
+               'boost::optional<nix::ndsize_t> r = getIndex({g_wp}, ticks, static_cast<nix::PositionMatch>({g_wm}));\n' + PRINT_OPT,
+        oracle_body=RET_OPT,
+        oracle_harness='g_w0 = {g_w0}; g_w1 = {g_w1}; g_w2 = {g_w2}; g_w3 = {g_w3}; g_wn = {g_wn}; vec_double *t; getIndex({g_wp}, t, (PositionMatch){g_wm});')),
+    'getSampledIndex': dict(file=F, locator=OPT + r'getSampledIndex\s*\(', replay=dict(
+        tu='src/Dimensions.cpp', kinds={'position': 'double', 'offset': 'double', 'sampling_interval': 'double', 'match': 'int'},
+        driver='boost::optional<nix::ndsize_t> r = getSampledIndex({position}, {offset}, {sampling_interval}, static_cast<nix::PositionMatch>({match}));\n' + PRINT_OPT,
+        oracle_body=RET_OPT, oracle_harness='getSampledIndex({position}, {offset}, {sampling_interval}, (PositionMatch){match});')),
 }
 
 IAX_COVERS = ['COVER-has', 'COVER-none']
